@@ -1,3 +1,6 @@
-import Carquet.Util
-import Carquet.Spec.Crc32
+import Carquet.Gen.Constants
 import Carquet.Impl.Crc32
+import Carquet.Properties.C14
+import Carquet.Properties.C14.Crc
+import Carquet.Spec.Crc32
+import Carquet.Util
